@@ -24,6 +24,7 @@ const rule = "operation sequences (generated up to length 8 with a tail up to 16
 
 var (
 	t1      = log.RegisterTag("_c16_t1")
+	tRoot   = log.RegisterTag("_c16r_unlisted") // no logger lists it: served by root (configured in B, built-in in A)
 	handles = map[string]*log.LoggerWrapper{"h1": log.GetLogger("h1")}
 	tags    = map[string]*log.Tag{"_c16_t1": t1}
 	console = &vk.Capture{}
@@ -134,6 +135,8 @@ type world struct {
 	state      string // unconfigured | liveA | liveB | failed
 	registered map[string]bool
 	requested  map[string]bool
+	lastTag    string // the pool tag registered most recently ("" = none yet)
+	lastHandle string // the pool handle requested most recently ("" = none yet)
 }
 
 const callLimit = 10 * time.Second
@@ -247,13 +250,32 @@ func runSeq(ops []op, w *world) (msg string, hang bool) {
 			enabled := true
 			if o.K == "LogTag" {
 				lv := lvls[o.Level]
-				if w.state == "liveB" && lv.Code() < log.InfoLevel.Code() {
+				// which tag: the one of package init that a wildcard serves, one that only root serves,
+				// or the one registered most recently in this process (bound by the next Refresh)
+				tg := t1
+				switch {
+				case o.Var%3 == 1:
+					tg, target = tRoot, "rroot"
+					if w.state == "liveA" {
+						target = "console" // no root logger configured: the built-in one
+					}
+				case o.Var%3 == 2 && w.lastTag != "":
+					tg = tags[w.lastTag]
+				}
+				if w.state == "liveB" && lv.Code() < log.InfoLevel.Code() && tg != tRoot {
 					enabled = false
 				}
-				p, blocked = do(func() { log.Record(context.Background(), lv, t1, 1, log.Int("id", id)) })
+				p, blocked = do(func() { log.Record(context.Background(), lv, tg, 1, log.Int("id", id)) })
 			} else {
-				target = "rh1"
-				p, blocked = do(func() { _, _ = handles["h1"].Write([]byte(fmt.Sprintf("id=%d\n", id))) })
+				hn := "h1"
+				if o.Var%2 == 1 && w.lastHandle != "" {
+					hn = w.lastHandle
+				}
+				target = "r" + hn
+				if hn == "root" && w.state == "liveA" {
+					target = "console"
+				}
+				p, blocked = do(func() { _, _ = handles[hn].Write([]byte(fmt.Sprintf("id=%d\n", id))) })
 			}
 			if blocked {
 				return fail("%s blocked", o), true
@@ -275,6 +297,16 @@ func runSeq(ops []op, w *world) (msg string, hang bool) {
 					time.Sleep(time.Millisecond)
 					if totalRecs() != before || console.Len() != conBefore {
 						return fail("%s below the serving logger's level was emitted", o), false
+					}
+					break
+				}
+				if target == "console" {
+					// served by the built-in console logger although a configuration is live
+					if !waitFor(func() bool { return strings.Contains(string(console.Bytes()[conBefore:]), fmt.Sprintf("id=%d", id)) }) {
+						return fail("%s is served by the built-in root logger under this configuration but did not reach the console stream (console got %q)", o, console.Bytes()[conBefore:]), false
+					}
+					if totalRecs() != before {
+						return fail("%s is served by the built-in root logger under this configuration but reached a configured appender", o), false
 					}
 					break
 				}
@@ -356,6 +388,9 @@ func runSeq(ops []op, w *world) (msg string, hang bool) {
 				}
 				tags[name] = tg
 				w.registered[name] = true
+				if slices.Contains(tagPool, name) {
+					w.lastTag = name
+				}
 			}
 		case "GetLoggerExisting", "GetLoggerNew":
 			name := "h1"
@@ -387,6 +422,9 @@ func runSeq(ops []op, w *world) (msg string, hang bool) {
 				}
 				handles[name] = h
 				w.requested[name] = true
+				if name != "h1" {
+					w.lastHandle = name
+				}
 			}
 		}
 	}
